@@ -103,7 +103,9 @@ def eval_dyn_atomizer(F):
 
 def eval_dyn_table(chk, F, rule, cfg):
     fn = F.fn('eval::DynCtx::eval_dyn')
-    paths = symex.Interp(F).run(fn)
+    # helpers that produce the same result type (or bool guards) are inlined, depth <= 2
+    inline = lambda f, d, n: d < 2 and (('EvalResult' in f.locals[0]['ty']) or f.locals[0]['ty'] == 'bool' or (f.kind == 'closure' and 'MockError' in f.locals[0]['ty'])) and len(f.blocks) < 60  # noqa: E731
+    paths = symex.Interp(F, inline=inline).run(fn)
     chk.analysed(fn)
     atom = eval_dyn_atomizer(F)
 
